@@ -113,6 +113,114 @@ let () =
           | r -> res_tag r)
       | _ -> failwith "parse_value: one text")
 
+(* ---- wire types (C17) ---- *)
+let ob = function "t" -> Some true | "f" -> Some false | _ -> None
+let json_of_hex h = match Json.parse_value (hb h) with Base.Ok j -> j | _ -> failwith "param text must be JSON"
+let ov = function "none" -> None | "somenull" -> Some Json.JNull | h -> Some (json_of_hex h)
+
+let struct_text sch rc = Json.print (Schema.ser sch rc)
+let struct_vtext sch rc = Json.print (Json.norm (Schema.ser sch rc))
+
+let roundtrip_struct sch rc =
+  let text = struct_text sch rc in
+  let eq_text = (match Schema.de_text sch text with Base.Ok r2 -> struct_text sch r2 = text | _ -> false) in
+  let eq_value = (match Schema.de_value sch (Json.norm (Schema.ser sch rc)) with Some r2 -> struct_text sch r2 = text | None -> false) in
+  Printf.sprintf "text=%s same_bytes=1 vtext=%s eq_str=%d eq_slice=%d eq_value=%d" (bh text) (bh (struct_vtext sch rc))
+    (if eq_text then 1 else 0) (if eq_text then 1 else 0) (if eq_value then 1 else 0)
+
+let de_struct sch how input =
+  match how with
+  | "text" | "str" ->
+    if how = "str" && not (Json.utf8_valid input) then "notutf8" else
+      (match Schema.de_text sch input with Base.Ok r -> "ok " ^ bh (struct_text sch r) | Base.Err -> "err" | Base.Fuel -> "FUEL")
+  | "value" ->
+    (match Json.parse_value input with
+     | Base.Ok j -> (match Schema.de_value sch j with Some r -> "ok " ^ bh (struct_text sch r) | None -> "err")
+     | Base.Err -> "notjson" | Base.Fuel -> "FUEL")
+  | _ -> failwith "how"
+
+let sort_uniq_keys (l : coq_N list list) = Stdlib.List.sort_uniq compare (Stdlib.List.map string_of_bytes l)
+let set_text keys = Json.print (WireSet.set_ser (Stdlib.List.map bytes_of_string keys))
+
+let () =
+  register "mk_req" (fun a ->
+      match a with
+      | [m; o; u; me; p] ->
+        let q = { Wire.r_more = ob m; r_oneway = ob o; r_upgrade = ob u; r_method = hb me; r_params = ov p } in
+        roundtrip_struct WireGen.schema_Request (Wire.record_of_request q)
+      | _ -> failwith "mk_req");
+  register "mk_reply" (fun a ->
+      match a with
+      | [c; e; p] ->
+        let y = { Wire.y_continues = ob c; y_error = (if e = "none" then None else Some (hb e)); y_params = ov p } in
+        roundtrip_struct WireGen.schema_Reply (Wire.record_of_reply y)
+      | _ -> failwith "mk_reply");
+  register "mk_info" (fun a ->
+      match a with
+      | v :: p :: ver :: url :: ifs ->
+        roundtrip_struct WireGen.schema_ServiceInfo
+          [Schema.VString (hb v); Schema.VString (hb p); Schema.VString (hb ver); Schema.VString (hb url);
+           Schema.VVecString (Stdlib.List.map hb ifs)]
+      | _ -> failwith "mk_info");
+  register "mk_set" (fun a ->
+      let keys = Stdlib.List.sort_uniq compare (Stdlib.List.map unhex a) in
+      let text = set_text keys in
+      let kb = Stdlib.List.map bytes_of_string keys in
+      let eq_text = (match WireSet.set_de_text SetGen.set_visitor_consumes_value text with
+          | Base.Ok k2 -> sort_uniq_keys k2 = keys | _ -> false) in
+      let eq_value = (match WireSet.set_de_value (Json.norm (WireSet.set_ser kb)) with
+          | Some k2 -> sort_uniq_keys k2 = keys | None -> false) in
+      Printf.sprintf "text=%s same_bytes=1 vtext=%s eq_str=%d eq_slice=%d eq_value=%d" (bh text) (bh text)
+        (if eq_text then 1 else 0) (if eq_text then 1 else 0) (if eq_value then 1 else 0));
+  register "mk_map" (fun a ->
+      let kvs = Stdlib.List.map (fun kv -> match String.split_on_char ':' kv with
+          | [k; v] -> (hb k, Json.JStr (hb v)) | _ -> failwith "kv") a in
+      let j = Json.norm (Json.JObj kvs) in
+      let text = Json.print j in
+      let eq_text = (match WireSet.map_de_text text with Base.Ok m -> Json.print (Json.norm (WireSet.map_ser m)) = text | _ -> false) in
+      let eq_value = (match WireSet.map_de_value j with Some m -> Json.print (Json.norm (WireSet.map_ser m)) = text | None -> false) in
+      Printf.sprintf "text=%s same_bytes=1 vtext=%s eq_str=%d eq_slice=%d eq_value=%d" (bh text) (bh text)
+        (if eq_text then 1 else 0) (if eq_text then 1 else 0) (if eq_value then 1 else 0));
+  let reg_de name sch = register name (fun a -> match a with [how; x] -> de_struct sch how (hb x) | _ -> failwith name) in
+  reg_de "de_req" WireGen.schema_Request;
+  reg_de "de_reply" WireGen.schema_Reply;
+  reg_de "de_info" WireGen.schema_ServiceInfo;
+  reg_de "de_descr_args" WireGen.schema_GetInterfaceDescriptionArgs;
+  reg_de "de_descr_reply" WireGen.schema_GetInterfaceDescriptionReply;
+  reg_de "de_err_iface" WireGen.schema_ErrorInterfaceNotFound;
+  reg_de "de_err_param" WireGen.schema_ErrorInvalidParameter;
+  reg_de "de_err_method" WireGen.schema_ErrorMethodNotFound;
+  reg_de "de_err_notimpl" WireGen.schema_ErrorMethodNotImplemented;
+  register "de_set" (fun a ->
+      match a with
+      | [how; x] ->
+        let input = hb x in
+        let fin keys = "ok " ^ bh (set_text (sort_uniq_keys keys)) in
+        (match how with
+         | "text" | "str" ->
+           if how = "str" && not (Json.utf8_valid input) then "notutf8" else
+             (match WireSet.set_de_text SetGen.set_visitor_consumes_value input with
+              | Base.Ok k -> fin k | Base.Err -> "err" | Base.Fuel -> "FUEL")
+         | _ ->
+           (match Json.parse_value input with
+            | Base.Ok j -> (match WireSet.set_de_value j with Some k -> fin k | None -> "err")
+            | Base.Err -> "notjson" | Base.Fuel -> "FUEL"))
+      | _ -> failwith "de_set");
+  register "de_map" (fun a ->
+      match a with
+      | [how; x] ->
+        let input = hb x in
+        let fin m = "ok " ^ bh (Json.print (Json.norm (WireSet.map_ser m))) in
+        (match how with
+         | "text" | "str" ->
+           if how = "str" && not (Json.utf8_valid input) then "notutf8" else
+             (match WireSet.map_de_text input with Base.Ok m -> fin m | Base.Err -> "err" | Base.Fuel -> "FUEL")
+         | _ ->
+           (match Json.parse_value input with
+            | Base.Ok j -> (match WireSet.map_de_value j with Some m -> fin m | None -> "err")
+            | Base.Err -> "notjson" | Base.Fuel -> "FUEL"))
+      | _ -> failwith "de_map")
+
 let () =
   let tbl = handlers in
   (try
